@@ -50,14 +50,20 @@ NotSynced(r) == {j \in SyncIdx(r) : \E p \in SamePair(j) : ~Exchanged(j, p[1], p
 BadObs(r) == {j \in SyncIdx(r) : \E n \in DOMAIN Lines[j].obs : ~WellFormedPins(Lines[j].obs[n].pins)}
 
 \* history shape of a cid before line j (used only to name the violation)
-OkOps(r, j, c) == {k \in Idx(r) : k < j /\ Lines[k].ev = "op" /\ Lines[k].res = "ok" /\ Lines[k].c = c}
+OpsOfLine(l) == IF l.ev = "op" THEN (IF l.res = "ok" THEN {[k |-> l.op, c |-> l.c]} ELSE {})
+                ELSE IF l.ev = "batch" THEN {[k |-> l.ops[n].k, c |-> l.ops[n].c] : n \in DOMAIN l.ops}
+                ELSE {}
 Shape(r, j, c) ==
-    LET pins == {k \in OkOps(r, j, c) : Lines[k].op = "pin"}
-        rms  == {k \in OkOps(r, j, c) : Lines[k].op = "unpin"}
-        preps == {Lines[k].r : k \in pins}
+    LET before == {k \in Idx(r) : k < j}
+        preps == {Lines[k].r : k \in {k \in before : Lines[k].ev \in {"op", "batch"} /\ [k |-> "pin", c |-> c] \in OpsOfLine(Lines[k])}}
+        rms   == {k \in before : [k |-> "unpin", c |-> c] \in OpsOfLine(Lines[k])}
+        multi == {k \in before : Lines[k].ev = "batch" /\
+                    Cardinality({n \in DOMAIN Lines[k].ops : Lines[k].ops[n].k = "pin" /\ Lines[k].ops[n].c = c}) >= 2}
     IN IF Cardinality(preps) >= 2 /\ rms # {} THEN "concurrent-add-with-remove"
+       ELSE IF Cardinality(preps) >= 2 /\ multi # {} THEN "concurrent-add-with-multi-pin-batch"
        ELSE IF Cardinality(preps) >= 2 THEN "concurrent-add"
        ELSE "single-writer"
+Shapes == {"concurrent-add-with-remove", "concurrent-add-with-multi-pin-batch", "concurrent-add", "single-writer"}
 
 MemberDiv(r) == {j \in SyncIdx(r) : MemberDivAt(j) # {}}
 \* every change between two consecutive observations of a replica was handed to its tracker
@@ -70,14 +76,34 @@ HookSeen(r, j, rep, c, new) ==
                       /\ Lines[k].r = rep /\ Lines[k].c = c
                       /\ IF new = Absent THEN Lines[k].ev = "untrack" ELSE Lines[k].ev = "track" /\ Lines[k].v = new
 HookBad(r) ==
-              {x \in [line : SyncIdx(r), rep : REPS, c : CIDS, shape : {"concurrent-add-with-remove", "concurrent-add", "single-writer"}] :
+              {x \in [line : SyncIdx(r), rep : REPS, c : CIDS, shape : Shapes] :
                   /\ x.rep \in RepsAt(x.line) /\ x.shape = Shape(r, x.line, x.c)
                   /\ WellFormedPins(ObsOf(x.line, x.rep).pins)
                   /\ LET new == ObsPins(ObsOf(x.line, x.rep).pins)[x.c] old == PrevPins(r, x.line, x.rep)[x.c]
                      IN new # old /\ ~HookSeen(r, x.line, x.rep, x.c, new)}
 
-Verdict(r) == [run |-> Hdr(r).run, memberdiv |-> MemberDiv(r),
-               valuediv |-> {x \in [line : SyncIdx(r), c : CIDS, shape : {"concurrent-add-with-remove", "concurrent-add", "single-writer"}] :
+\* a replica that has never been connected shows exactly its own accepted operations, in order
+RECURSIVE OwnSeq(_, _)
+OwnSeq(s, acc) ==
+    IF s = <<>> THEN acc
+    ELSE LET l == Lines[Head(s)] IN
+         OwnSeq(Tail(s), IF l.ev = "op" THEN Append(acc, [k |-> l.op, c |-> l.c, v |-> l.v])
+                         ELSE acc \o [n \in DOMAIN l.ops |-> [k |-> l.ops[n].k, c |-> l.ops[n].c, v |-> l.ops[n].v]])
+RECURSIVE ApplyOps(_, _)
+ApplyOps(ps, ops) == IF ops = <<>> THEN ps
+                     ELSE ApplyOps([ps EXCEPT ![Head(ops).c] = IF Head(ops).k = "pin" THEN Head(ops).v ELSE Absent], Tail(ops))
+OwnLines(r, j, rep) == {k \in Idx(r) : k < j /\ Lines[k].ev \in {"op", "batch"} /\ Lines[k].r = rep /\
+                                        (Lines[k].ev = "op" => Lines[k].res = "ok")}
+Alone(j, rep) == \E n \in DOMAIN Lines[j].comps : Lines[j].comps[n] = <<rep>>
+OwnBad(r) == {x \in [line : SyncIdx(r), rep : REPS] :
+                /\ x.rep \in RepsAt(x.line) /\ Alone(x.line, x.rep)
+                /\ WellFormedPins(ObsOf(x.line, x.rep).pins)
+                /\ ObsPins(ObsOf(x.line, x.rep).pins) #
+                     ApplyOps([c \in CIDS |-> Absent],
+                              OwnSeq(SetToSortSeq(OwnLines(r, x.line, x.rep), LAMBDA a, b : a < b), <<>>))}
+
+Verdict(r) == [run |-> Hdr(r).run, memberdiv |-> MemberDiv(r), own |-> OwnBad(r),
+               valuediv |-> {x \in [line : SyncIdx(r), c : CIDS, shape : Shapes] :
                                 x.c \in ValueDivCids(x.line) /\ x.shape = Shape(r, x.line, x.c)},
                hook |-> HookBad(r), notsynced |-> NotSynced(r), badobs |-> BadObs(r),
                first |-> Starts[r], last |-> EndOf(r)]
@@ -88,7 +114,7 @@ VARIABLES run, i
 VRankRep(rep) == CHOOSE n \in 0..9 : rep = "r" \o ToString(n)
 tvars == <<vars, run, i>>
 
-ASSUME \A r \in 1..NRuns : TLCSet(r, 0)
+ASSUME \A r \in 1..(2 * NRuns) : TLCSet(r, 0)
 
 TraceInit == /\ run \in 1..NRuns /\ i = Starts[run] + 1 /\ Init
 
@@ -98,6 +124,9 @@ L == Lines[i]
 TOp == /\ More /\ L.ev = "op" /\ L.res = "ok"
        /\ IF L.op = "pin" THEN LocalPin(L.r, L.c, L.v) ELSE LocalUnpin(L.r, L.c)
        /\ i' = i + 1 /\ UNCHANGED run
+TBatch == /\ More /\ L.ev = "batch"
+          /\ LocalBatch(L.r, [n \in DOMAIN L.ops |-> [k |-> L.ops[n].k, c |-> L.ops[n].c, v |-> L.ops[n].v]])
+          /\ i' = i + 1 /\ UNCHANGED run
 TConnect == /\ More /\ L.ev = "connect" /\ Connect(L.r, L.s) /\ i' = i + 1 /\ UNCHANGED run
 \* Merging at one replica neither enables nor changes merging at another one (Avail is the union over
 \* the component), so only the first replica that is behind takes delivery steps: all orders per replica
@@ -115,13 +144,16 @@ TSync == /\ More /\ L.ev = "sync"
          /\ i' = i + 1 /\ UNCHANGED <<vars, run>>
 TSkip == /\ More /\ L.ev \in {"track", "untrack"} /\ i' = i + 1 /\ UNCHANGED <<vars, run>>
 
-TraceNext == TOp \/ TConnect \/ TProc \/ TSync \/ TSkip
+TraceNext == TOp \/ TBatch \/ TConnect \/ TProc \/ TSync \/ TSkip
 TraceSpec == TraceInit /\ [][TraceNext]_tvars
 
-Mark == TLCSet(run, IF TLCGet(run) > i THEN TLCGet(run) ELSE i)
+Mark == /\ TLCSet(run, IF TLCGet(run) > i THEN TLCGet(run) ELSE i)
+        \* the specification's invariants are evaluated on every state that explains a recorded run;
+        \* the first line at which one fails is remembered (register NRuns + run), never aborting the other runs
+        /\ (~(MembershipConvergence) /\ TLCGet(NRuns + run) = 0) => TLCSet(NRuns + run, i)
 \* the view leaves out bookkeeping that does not influence what can follow
 TView == <<deltas, seen, elemsR, tombsR, reg, conn, run, i>>
 
 Finish == ndJsonSerialize(IOEnv.VERDICT_FILE,
-            <<[n |-> NRuns, hwm |-> [r \in 1..NRuns |-> TLCGet(r)], runs |-> [r \in 1..NRuns |-> Verdict(r)]]>>)
+            <<[n |-> NRuns, hwm |-> [r \in 1..NRuns |-> TLCGet(r)], invbad |-> [r \in 1..NRuns |-> TLCGet(NRuns + r)], runs |-> [r \in 1..NRuns |-> Verdict(r)]]>>)
 =============================================================================
